@@ -1,10 +1,136 @@
 import FluentProofs.Pseudo
-namespace FluentProofs.C20
-open FluentModel FluentModel.Pseudo
+/-!
+# C20 — pseudolocalisation changes only ASCII letters and never touches markup
 
-/-- the regexes the model implements are the ones in the source -/
+Model: `FluentModel.Pseudo` (transcribed from `fluent-pseudo/src/lib.rs`; table lookups, `usize`
+subtractions, `&s[a..b]` and `replace_range` are explicit possibly-panicking operations on **byte**
+offsets).  Specification: `imgChar` / `image` (`FluentProofs.Pseudo`).  All theorems hold for *every*
+string, every flag combination and *any* four tables with 26 entries (`FullTables`); the tables extracted
+from the source satisfy that (`C20_generated_tables_full`, re-checked against the source on every run).
+-/
+namespace FluentProofs.C20
+open FluentModel FluentModel.Pseudo FluentProofs.Pseudo
+
+/-- **`transform` never panics and is the per-character image**: the output is the concatenation, over
+the input's characters in order, of `imgChar` – the table counterpart for ASCII letters, the character itself
+otherwise.  (No table index is out of bounds.) -/
+theorem C20_transform_spec (T : Tables) (hT : FullTables T) (flipped elongate : Bool) (s : List Char) :
+    transform T flipped elongate s = .done (s.flatMap (imgChar T flipped elongate)) :=
+  transform_spec T hT flipped elongate s
+
+/-- **What the image of a character is**: a lower-case ASCII letter becomes its entry in the selected
+small table, twice exactly when elongation is on and the letter is one of `a e o u`; an upper-case letter
+becomes its entry in the selected capitals table, once; every other character is left untouched. -/
+theorem C20_imgChar_cases (T : Tables) (flipped elongate : Bool) (c : Char) :
+    (isLower c → imgChar T flipped elongate c =
+        List.replicate (if elongate = true ∧ isElongated c then 2 else 1)
+          (Char.ofNat ((smallOf T flipped).getD (c.toNat - 97) 0))) ∧
+    (isUpper c → imgChar T flipped elongate c = [Char.ofNat ((capsOf T flipped).getD (c.toNat - 65) 0)]) ∧
+    (¬ isLower c → ¬ isUpper c → imgChar T flipped elongate c = [c]) := by
+  refine ⟨?_, ?_, ?_⟩
+  · intro h
+    unfold imgChar
+    rw [if_pos h]
+    by_cases he : elongate = true ∧ isElongated c
+    · simp only [if_pos he]; rfl
+    · simp only [if_neg he]; rfl
+  · intro h
+    have hn : ¬ isLower c := by unfold isLower; unfold isUpper at h; omega
+    unfold imgChar
+    rw [if_neg hn, if_pos h]
+  · intro h1 h2
+    unfold imgChar
+    rw [if_neg h1, if_neg h2]
+
+/-- **Everything that is not an ASCII letter stays in place**: a non-letter `c` between any two texts is
+found, unchanged, between their images. -/
+theorem C20_nonletter_in_place (T : Tables) (hT : FullTables T) (flipped elongate : Bool)
+    (a b : List Char) (c : Char) (hc : ¬ isLower c ∧ ¬ isUpper c) :
+    transform T flipped elongate (a ++ c :: b) =
+      .done (image T flipped elongate a ++ c :: image T flipped elongate b) := by
+  rw [transform_spec T hT]
+  have := (C20_imgChar_cases T flipped elongate c).2.2 hc.1 hc.2
+  simp [image, this]
+
+/-- **Length facts**: one output character per input character plus one per doubled letter (so nothing is
+dropped or invented), and the output is never shorter in bytes than the input (the fact that keeps `diff` from
+underflowing). -/
+theorem C20_transform_length (T : Tables) (flipped elongate : Bool) (s : List Char) :
+    (image T flipped elongate s).length =
+        s.length + (if elongate = true then s.countP (fun c => decide (isElongated c)) else 0) ∧
+      blen s ≤ blen (image T flipped elongate s) :=
+  ⟨length_image T flipped elongate s, blen_image_ge T flipped elongate s⟩
+
+/-- **Markup-aware variant, on every ordered, non-overlapping, boundary-aligned match list** (whatever
+the regex engine reports, as long as it is of that shape): the input decomposes as
+`seg₀ tag₀ seg₁ tag₁ … segₙ` along the matches and the result is
+`t(seg₀) tag₀ t(seg₁) tag₁ … t(segₙ)` – every tag/entity byte-identical and in order, every text segment
+transformed with the *caller's* `flipped`/`elongate`, brackets iff `with_markers`.  In particular no
+`usize` subtraction (`sub_len`, `diff`) underflows and every slice / `replace_range` is on a char boundary. -/
+theorem C20_transform_dom_spec (T : Tables) (hT : FullTables T) (flipped elongate withMarkers : Bool)
+    (s : List Char) (ms : List (Nat × Nat)) (hms : ValidMatches s 0 ms) (hlen : s.length ≠ 1) :
+    ∃ parts last, s = flatten parts ++ last ∧ ms = offsets 0 parts ∧
+      transformDomWith T ms s flipped elongate withMarkers =
+        .done (bracket withMarkers
+          (parts.flatMap (fun p => image T flipped elongate p.1 ++ p.2) ++ image T flipped elongate last)) := by
+  obtain ⟨parts, last, hs, hoff⟩ := validMatches_decompose s ms [] s rfl hms
+  refine ⟨parts, last, hs, hoff, ?_⟩
+  have hoff' : ms = offsets 0 parts := hoff
+  rw [hoff', hs]
+  exact transformDomWith_spec T hT flipped elongate withMarkers parts last (by rw [← hs]; exact hlen)
+
+/-- **One-character strings are unchanged** (and get no brackets), for every character, whatever the
+regex matched. -/
+theorem C20_one_character_unchanged (T : Tables) (ms : List (Nat × Nat)) (c : Char)
+    (flipped elongate withMarkers : Bool) :
+    transformDomWith T ms [c] flipped elongate withMarkers = .done [c] :=
+  transformDomWith_one T ms [c] flipped elongate withMarkers rfl
+
+/-- **The executable model `transformDom`** (the one the driver runs, with the leftmost-first matcher for
+`&[#\w]+;|<\s*.+?\s*>`): its matches always form a decomposition of the input, so the result is the
+decomposition's image; the fuel given to the matcher is sufficient (more fuel changes nothing). -/
+theorem C20_transform_dom_model (T : Tables) (hT : FullTables T) (flipped elongate withMarkers : Bool)
+    (s : List Char) :
+    ∃ parts last, s = flatten parts ++ last ∧
+      (∀ fuel, s.length < fuel → findParts fuel [] s = (parts, last)) ∧
+      transformDom T s flipped elongate withMarkers =
+        .done (if s.length = 1 then s else bracket withMarkers
+          (parts.flatMap (fun p => image T flipped elongate p.1 ++ p.2) ++ image T flipped elongate last)) := by
+  refine ⟨(findParts (s.length + 1) [] s).1, (findParts (s.length + 1) [] s).2, ?_, ?_, ?_⟩
+  · have := findParts_flatten (s.length + 1) [] s
+    simpa using this.symm
+  · intro fuel hf
+    exact findParts_fuel fuel (s.length + 1) [] s hf (by omega)
+  · unfold transformDom
+    by_cases h1 : s.length = 1
+    · rw [if_pos h1]; exact transformDomWith_one _ _ _ _ _ _ h1
+    · rw [if_neg h1]
+      have hs := findParts_flatten (s.length + 1) [] s
+      simp only [List.reverse_nil, List.nil_append] at hs
+      have := transformDomWith_spec T hT flipped elongate withMarkers
+        (findParts (s.length + 1) [] s).1 (findParts (s.length + 1) [] s).2 (by rw [hs]; exact h1)
+      rw [hs] at this
+      exact this
+
+/-- the tables in the source have 26 entries each (test on the extracted constants, re-run on every check) -/
+theorem C20_generated_tables_full : FullTables generatedTables := by
+  unfold FullTables generatedTables; decide
+
+/-- the regexes the model implements are the ones in the source (test on the extracted constants) -/
 theorem C20_regex_sources :
     Generated.pseudoExcludedRegex = modelledExcludedRegex ∧ Generated.pseudoAzRegex = modelledAzRegex := by
   decide
+
+/-! Non-vacuity / sanity (tests on literals): the crate's unit tests, the F16 witness (caller's flags before
+the first tag) and the F19 witness, run on the model with the extracted tables. -/
+example : transform generatedTables false true "Hello World".toList = .done "Ħeeŀŀoo Ẇoořŀḓ".toList := by decide
+example : transformDom generatedTables "Hello <b>World</b> end".toList true false false =
+    .done "Hǝʅʅo <b>Moɹʅp</b> ǝup".toList := by decide
+example : transformDom generatedTables "é".toList false true true = .done "é".toList := by decide
+example : transformDom generatedTables "a &amp; <b >é</b>".toList false true true =
+    .done "[aa &amp; <b >é</b>]".toList := by decide
+example : ValidMatches "a<b>c".toList 0 [(1, 4)] :=
+  ⟨by decide, by decide, ⟨"a".toList, "<b>c".toList, by decide, by decide⟩,
+    ⟨"a<b>".toList, "c".toList, by decide, by decide⟩, trivial⟩
 
 end FluentProofs.C20
